@@ -75,14 +75,14 @@ func (f *g2lFn) usedOuter(nodes []ast.Node, before token.Pos, exclude map[*types
 			if cl, ok := f.closures[v]; ok {
 				// a call to a local closure needs the variables the closure captures
 				for _, cv := range append(append([]*types.Var{}, cl.capV...), cl.modV...) {
-					if cv.Pos() < before && !seen[cv] && !exclude[cv] {
+					if f.declaredBefore(cv, before) && !seen[cv] && !exclude[cv] {
 						seen[cv] = true
 						out = append(out, cv)
 					}
 				}
 				return true
 			}
-			if v.Pos() >= before || seen[v] || exclude[v] {
+			if !f.declaredBefore(v, before) || seen[v] || exclude[v] {
 				return true
 			}
 			seen[v] = true
@@ -230,9 +230,21 @@ func (f *g2lFn) buildLoop(sp *loopSpec, rest kont) []string {
 	for _, c := range sp.captured {
 		capSet[c.name] = true
 	}
+	inGoto := ""
 	for _, l := range strings.Split(strings.Join(step, "\n"), "\n") {
 		t := strings.TrimSpace(l)
+		if inGoto != "" {
+			// the continuation of a goto out of the loop: it ends in a return, its bindings are not the loop's
+			if strings.HasPrefix(t, "pure (Ctl.ret "+inGoto+")") {
+				inGoto = ""
+			}
+			continue
+		}
 		if !strings.HasPrefix(t, "let ") {
+			continue
+		}
+		if fs := strings.Fields(t); len(fs) > 2 && f.gotoVars[fs[1]] && fs[2] == "←" {
+			inGoto = fs[1]
 			continue
 		}
 		end := strings.Index(t, ":=")
@@ -483,6 +495,37 @@ func (f *g2lFn) gotoTargets(n ast.Node) []ast.Node {
 				for _, st := range f.fd.Body.List[idx:] {
 					out = append(out, st)
 				}
+			} else {
+				// a label of a nested statement list: the labelled statement and everything that can run after it
+				// (an over-approximation: every statement that starts after the label)
+				var lpos token.Pos
+				ast.Inspect(f.fd.Body, func(y ast.Node) bool {
+					if ls, ok := y.(*ast.LabeledStmt); ok && ls.Label.Name == b.Label.Name {
+						lpos = ls.Pos()
+					}
+					return true
+				})
+				if lpos.IsValid() {
+					var walk func(list []ast.Stmt)
+					walk = func(list []ast.Stmt) {
+						for _, st := range list {
+							if st.Pos() >= lpos {
+								out = append(out, st)
+								continue
+							}
+							if st.End() > lpos {
+								ast.Inspect(st, func(y ast.Node) bool {
+									if bl, ok := y.(*ast.BlockStmt); ok && bl.Pos() < lpos && bl.End() > lpos {
+										walk(bl.List)
+										return false
+									}
+									return true
+								})
+							}
+						}
+					}
+					walk(f.fd.Body.List)
+				}
 			}
 		}
 		return true
@@ -508,4 +551,24 @@ func (f *g2lFn) varType(v *types.Var, at ast.Node) string {
 type labelTarget struct {
 	loop *g2lLoop
 	brk  *brkTarget
+}
+
+// declaredBefore: the variable is visible at source position `before` as an OUTER variable: declared earlier in the same
+// function, or — while the body of an inlined function is compiled — anywhere outside that function's source text (the
+// caller's variables reach the inlined body through alias parameters and bound arguments); the world variable always is.
+func (f *g2lFn) declaredBefore(v *types.Var, before token.Pos) bool {
+	if v == nil {
+		return false
+	}
+	if v == f.worldVar {
+		return true
+	}
+	for _, r := range f.inlineRanges {
+		if r[0] <= before && before < r[1] {
+			if !(r[0] <= v.Pos() && v.Pos() < r[1]) {
+				return true
+			}
+		}
+	}
+	return v.Pos() < before
 }
